@@ -2,6 +2,11 @@
 
 package hclsyntax
 
+import (
+	"github.com/hashicorp/hcl/v2"
+	"github.com/zclconf/go-cty/cty"
+)
+
 // Read-only exports used by the external verification harness (build tag
 // "verif"). Nothing here changes behaviour; with the tag off this file is
 // not compiled.
@@ -88,4 +93,17 @@ func VerifSplatLive(e *SplatExpr) int {
 	e.Item.valuesLock.RLock()
 	defer e.Item.valuesLock.RUnlock()
 	return len(e.Item.values)
+}
+
+// VerifAnonSet, VerifAnonClear and VerifNewAnon expose the per-context value
+// table of a splat's anonymous symbol, so that the harness can drive it with
+// arbitrary operation sequences.
+func VerifAnonSet(e *AnonSymbolExpr, ctx *hcl.EvalContext, v cty.Value) { e.setValue(ctx, v) }
+
+func VerifAnonClear(e *AnonSymbolExpr, ctx *hcl.EvalContext) { e.clearValue(ctx) }
+
+func VerifAnonLive(e *AnonSymbolExpr) int {
+	e.valuesLock.RLock()
+	defer e.valuesLock.RUnlock()
+	return len(e.values)
 }
